@@ -28,7 +28,7 @@ from vmc.tally import Tally
 META = {
     "level": "exploration",
     "technique": "bounded-exhaustive enumeration of (error-page producer x payload x position x method x follower) on the real proxy core (virtual event loop), pages judged by an independent HTML tokenizer, http1ref and hyper-h2",
-    "claim": "for every way the HTTP core (and the proxyauth addon) answers with a page of its own and every markup payload placed in the attacker-controlled position of that way, the page contains only the template's tags, every reflected byte is HTML-escaped, the response declares text/html, and on HTTP/1 the client's byte stream is exactly one complete response followed by close",
+    "claim": "for every way the HTTP core (and the proxyauth addon) answers with a page of its own and every markup payload placed in the attacker-controlled position of that way, the page contains only the template's tags, every reflected byte is HTML-escaped, the response declares text/html, and on HTTP/1 the client's byte stream, read by a strict reader in the context of the request method, is a complete Content-Length framed response with nothing after a page that declares Connection: close",
     "rule": "a case is (protocol, producer, payload, method, follower); distinct = distinct tuple; non-trivial = mitmproxy answered with a page of its own (counted separately: pages that actually reflect the payload marker)",
     "assumptions": [
         "client bytes arrive in one segment (segmentation independence is C02)",
@@ -340,6 +340,9 @@ def judge_h1(case, feats, sc, w, down, down_before, closed_before, P, t, verbose
         t.outcome([case["producer"], kind, down[:15]])
         return
     # ---- framing -----------------------------------------------------------------------------------------------------
+    # origin: "core" = written by Http1Server's own error path (make_error_response), "addon" = an addon-made response
+    # that went through the ordinary response path (proxyauth)
+    feats = dict(feats, origin="core" if own_by_server else "addon")
     status = int(first_head[9:12]) if first_head[9:12].isdigit() else 0
     fields = []
     for line in first_head.split(b"\r\n")[1:]:
@@ -371,7 +374,11 @@ def judge_h1(case, feats, sc, w, down, down_before, closed_before, P, t, verbose
     # ---- markup ------------------------------------------------------------------------------------------------------
     cl = [v for n, v in fields if n.lower() == b"content-length"]
     body = first_body[: int(cl[0])] if cl and cl[0].isdigit() else first_body
-    if case["producer"] == "proxyauth_407":
+    if method == b"HEAD" and not first_body:
+        # a correctly framed answer to HEAD has no content: there is no markup to judge
+        t.ok("head_answer_without_content")
+        reflected = False
+    elif case["producer"] == "proxyauth_407":
         # its own small template; judged for escaping only (it has no <p> and no reflected text)
         pg = _Page()
         pg.feed(body.decode("utf-8", "replace"))
@@ -500,7 +507,9 @@ def run(ctx):
         "cases": len(cs), "note": "full product in both tiers",
     }
     ctx.log("%d cases (%d HTTP/1 producers, %d HTTP/2 producers)" % (len(cs), len(PRODUCERS), len(H2_PRODUCERS)))
-    par.pmap_tally(chunk_fn, cs, ctx.tally, nchunks=64)
+    # the whole product costs ~10 s of CPU; measured on this (heavily shared) machine a forked pool is slower than
+    # running it in-process, so it is dealt to at most 2 workers
+    par.pmap_tally(chunk_fn, cs, ctx.tally, nchunks=2, nproc=2)
     t = ctx.tally
     ctx.log("own pages: %d, reflecting the payload marker: %d, non-html own answers: %d" % (
         len(t.nontrivial), t.extra.get("pages_reflecting_payload", 0), t.extra.get("own_non_html_answers", 0)))
